@@ -159,7 +159,7 @@ Section Inv.
 
   Lemma InvA_init : InvA' ([], starts, []).
   Proof.
-    unfold InvA'; simpl. constructor; simpl; unfold state_of; simpl.
+    clear abort. unfold InvA'; simpl. constructor; simpl; unfold state_of; simpl.
     - intros l; split; [tauto|congruence].
     - constructor.
     - intros x [H|H]; [apply reach_start; exact H|congruence].
